@@ -245,4 +245,20 @@ CHECKS = {
              "language namespaces.",
         note="Equality of outputs across prefix spellings is not computed; "
              "duplicate attribute names in one tag are assumed absent."),
+    "C17": dict(
+        technique="constant folding of the BOM table (row order, prefix "
+                  "shadowing, BOM consumption per codec); structural decision "
+                  "order of read_bytes; def-use of the sniffing result",
+        text="Decides that the BOM table is searched first and in an order "
+             "in which no BOM shadows a longer one, that for every reachable "
+             "row the byte-order mark cannot survive decoding (cut off "
+             "before decoding or consumed by the codec) and the codec agrees "
+             "with the BOM's byte order; that the decision order is BOM, XML "
+             "declaration, meta charset, default utf-8; that XML mode is "
+             "reported exactly for documents starting with an XML "
+             "declaration, stored on the template before compilation, and "
+             "guards boolean-attribute defaults and newline rewriting.",
+        note="Acceptance of RE_ENCODING / RE_META (spelling of declarations "
+             "and meta tags) is value-level and not decided; rendering "
+             "equality bytes vs str follows from decoding only."),
 }
